@@ -235,6 +235,12 @@ func (f *FailoverOf[V]) Get(
 
 	// Disabling defer to unlock in background.
 	alreadyLocked = true
+
+	// Copying key for background update, original slice belongs to caller and may be reused after return.
+	k := make([]byte, len(key))
+	copy(k, key)
+	key = k
+
 	// Spawning cache update in background.
 	go func() {
 		defer func() {
